@@ -17,7 +17,8 @@
 (*   sender API "buffered" StartMsg = StartMessage, AppWrite(n) =          *)
 (*                         WriteMessage (with ThresholdFlush inside the    *)
 (*                         call), EndMessage                               *)
-(*   sender API "typed"    MsgPut(kind,n) = Message.PutBytes / PutString,  *)
+(*   sender API "typed"    MsgPut(kind,n) = Message.PutBytes / PutString / *)
+(*                         PutStringBytes,                                 *)
 (*                         MsgFlush = FlushFrame(false),                   *)
 (*                         MsgFinish = FinishMessage                       *)
 (*   every frame leaves through SendFrame (sendMessageWithEnd), guarded by *)
@@ -53,6 +54,7 @@ CONSTANTS
   RecvApis,    \* subset of {"complete", "startread", "typed"}
   WriteSizes,  \* sizes of one write (bytes)
   StrSizes,    \* content lengths for typed PutString writes ({} = none)
+  StrBytesSizes, \* content lengths for typed PutStringBytes writes (same layout as PutString)
   ReadSizes,   \* sizes k of one ReadBytes / GetBytes; 0 stands for "all that is available"
   MaxMsgs,     \* messages per behaviour
   MaxWrites,   \* write calls per message (incl. the final one for "frames")
@@ -139,7 +141,7 @@ ReceiverAccepts(f) == f.wlen <= Max
 Chunk == IF "ChunkIgnoresOverhead" \in Bug \/ ~enc THEN Max ELSE Max - Tag - IVLen
 
 \* bytes a typed write puts into the message
-EncLen(kind, n) == IF kind = "string" THEN n + 1 + (IF enc THEN 8 ELSE 0) ELSE n
+EncLen(kind, n) == IF kind \in {"string", "stringbytes"} THEN n + 1 + (IF enc THEN 8 ELSE 0) ELSE n
 
 -----------------------------------------------------------------------------
 (* Sender core: SendFrame on a working copy [wire, nprot, err]             *)
@@ -272,6 +274,7 @@ SenderStep ==
   /\ \/ StartMsg
      \/ \E n \in WriteSizes : ExplicitPartial(n) \/ SendWhole(n) \/ AppWrite(n) \/ MsgPut("bytes", n)
      \/ \E n \in StrSizes : MsgPut("string", n)
+     \/ \E n \in StrBytesSizes : MsgPut("stringbytes", n)
      \/ EndMessage \/ MsgFlush \/ MsgFinish
   /\ UNCHANGED <<enc, sapi, rapi, phase, rcvVars>>
 
